@@ -244,15 +244,22 @@ TokenKinds   == {"catchpad", "cleanuppad", "catchswitch"}
 (*     "elemundef" / "elemcexpr" (constant vector with an undef / constant *)
 (*     expression element), "undef",                                       *)
 (*     "poison", "cexpr" (ptrtoint expression), "cexpr2" (add of a         *)
-(*     ptrtoint), "ssa" (instruction operand that is not a constant)       *)
+(*     ptrtoint), "cfold" (integer constant expression without a global:   *)
+(*     trunc / zext / add / sub of literals -- LLVM folds it while parsing, *)
+(*     so it has the value val and may select a struct field), "ssa"       *)
+(*     (instruction operand that is not a constant)                        *)
 (* w   integer width of the (element) type;  val  constant value or -1     *)
 (* vec vector length, 0 = scalar;  sc  scalable;  ir  wrapped in inrange   *)
 (* The fragment Step/Compatible/Merge/GepResult was validated against      *)
 (* LLVM in the design round (7 846 cases, no disagreement) and is          *)
 (* re-validated on every run.                                              *)
 (***************************************************************************)
-Idx(f, w, val, vec, sc) == [f |-> f, w |-> w, val |-> val, vec |-> vec, sc |-> sc, ir |-> FALSE]
+Idx(f, w, val, vec, sc) == [f |-> f, w |-> w, val |-> val, vec |-> vec, sc |-> sc, ir |-> FALSE, lit |-> "dec"]
 InRange(ix) == [ix EXCEPT !.ir = TRUE]
+\* lit: how the literal is spelled -- no input of the typing rule, a dimension of the vectors:
+\*   "dec" decimal, "hex" u0x.., "lead0" decimal with leading zeros (first element of a splat);
+\*   for "cfold" the expression: "trunc", "zext", "add", "sub"
+Spelled(ix, lit) == [ix EXCEPT !.lit = lit]
 
 \* stepping into t with index ix (every index but the first): structs need an i32 constant,
 \* scalar or splat; arrays and vectors take any index
@@ -260,7 +267,7 @@ StepOK(U, t, ix) ==
   LET r == Resolve(U, t) IN
   CASE t.k = "named" /\ U[t.nm].opaque -> FALSE
     [] r.k = "struct" -> /\ ix.w = 32 /\ ix.val >= 0 /\ ix.val < Len(r.fs)
-                         /\ ix.f \in {"int", "zeroinit", "splat"}
+                         /\ ix.f \in {"int", "zeroinit", "splat", "cfold"}
     [] r.k \in {"arr", "vec"} -> TRUE
     [] OTHER -> FALSE
 Step(U, t, ix) == LET r == Resolve(U, t) IN IF r.k = "struct" THEN r.fs[ix.val + 1] ELSE r.e
